@@ -24,7 +24,7 @@ CLASSES = ["Discretizer", "QuantitativeDiscretizer", "QualitativeDiscretizer", "
 # ------------------------------------------------------------------------------------------------
 def gen_quant_column(rng, n, flavour=None):
     flavour = flavour or rng.choice(["uniform", "uniform", "discrete", "yyyymm", "close", "big",
-                                     "negative", "tiny", "halves", "timestamp", "near_constant", "ulps"])
+                                     "negative", "tiny", "halves", "timestamp", "near_constant", "ulps", "zero_spike"])
     if flavour == "uniform":
         lo, hi = rng.choice([(0, 1), (-5, 5), (0, 1000), (-1e6, 1e6)])
         xs = [rng.uniform(lo, hi) for _ in range(n)]
@@ -48,6 +48,12 @@ def gen_quant_column(rng, n, flavour=None):
         k = rng.randint(3, 10)
         base, step = rng.choice([(1.0, 2.0 ** -52), (2.0 ** 60, 256.0), (-1.0, 2.0 ** -53), (123.0, 2.0 ** -46)])
         xs = [base + rng.randint(0, k - 1) * step for _ in range(n)]
+    elif flavour == "zero_spike":        # 0.0 is a boundary (spike at zero), a rare bucket just below it
+        neg = rng.choice([0.02, 0.03, 0.06])
+        xs = []
+        for _ in range(n):
+            r = rng.random()
+            xs.append(-float(rng.randint(1, 3)) if r < neg else 0.0 if r < neg + 0.45 else float(rng.randint(1, 9)))
     elif flavour == "near_constant":     # a single interval [inf] remains after the base discretization
         base = rng.choice([0.0, 1.0, -3.5, 1e6])
         share = rng.choice([0.0, 0.0, 0.02, 0.04])
@@ -142,6 +148,8 @@ def gen_case(rng, cls=None, force=None):
         if kind not in allowed:
             kind = allowed[0]
         name = f"{kind[0]}{i}"
+        if i >= 1 and rng.random() < 0.35:
+            name = feats[0]["name"] + "_b" * i     # a name that CONTAINS another feature's name (q0 / q0_b)
         share = rng.choice([0, 0, 0.05, 0.15, 0.3])
         f = {"name": name, "kind": kind}
         if kind == "quant":
